@@ -926,6 +926,27 @@ func TestPropCrafted(t *testing.T) {
 type Run struct {
 	Size  int `json:"size"`
 	Count int `json:"count"`
+	// SelfSimilar: the element's octets are themselves a well-formed SCT list (2-octet total, then
+	// 2-octet-length-prefixed entries filling it exactly): an SCT is opaque, whatever it looks
+	// like. Size >= 4.
+	SelfSimilar bool `json:"self_similar,omitempty"`
+}
+
+// listShaped returns size octets that parse as an SCT list: total = size-2, entries of (at most)
+// 40 octets each, the last one taking the remainder.
+func listShaped(size int, tag uint64) []byte {
+	out := []byte{byte((size - 2) >> 8), byte(size - 2)}
+	rest := size - 2
+	for rest > 0 {
+		n := 40
+		if rest-2 < n || rest-2-n < 3 {
+			n = rest - 2
+		}
+		out = append(out, byte(n>>8), byte(n))
+		out = append(out, gen.Filler(n, tag+uint64(rest))...)
+		rest -= 2 + n
+	}
+	return out
 }
 
 type SCTCase struct {
@@ -945,6 +966,10 @@ func (c SCTCase) elements() ([][]byte, bool) {
 			return nil, false
 		}
 		for i := 0; i < rn.Count; i++ {
+			if rn.SelfSimilar && rn.Size >= 5 && rn.Size <= 65535 {
+				out = append(out, listShaped(rn.Size, c.Tag+uint64(len(out))))
+				continue
+			}
 			out = append(out, gen.Filler(rn.Size, c.Tag+uint64(len(out))))
 		}
 	}
@@ -1089,15 +1114,15 @@ func TestExhaustiveSCT(t *testing.T) {
 		return
 	}
 	for _, a := range sctSizes {
-		if !one(Run{a, 1}) {
+		if !one(Run{Size: a, Count: 1}) {
 			return
 		}
 		for _, b := range sctSizes {
-			if !one(Run{a, 1}, Run{b, 1}) {
+			if !one(Run{Size: a, Count: 1}, Run{Size: b, Count: 1}) {
 				return
 			}
 			for _, c := range sctSizes {
-				if !one(Run{a, 1}, Run{b, 1}, Run{c, 1}) {
+				if !one(Run{Size: a, Count: 1}, Run{Size: b, Count: 1}, Run{Size: c, Count: 1}) {
 					return
 				}
 			}
@@ -1106,18 +1131,18 @@ func TestExhaustiveSCT(t *testing.T) {
 	// (b) every total 65531..65539 reached by 1, 2 or 3 elements where the leading elements come from a fixed set
 	lead := []int{0, 1, 2, 100, 32765, 32766, 32767}
 	for T := 65531; T <= 65539; T++ {
-		if !one(Run{T - 2, 1}) {
+		if !one(Run{Size: T - 2, Count: 1}) {
 			return
 		}
 		for _, a := range lead {
 			if b := T - 4 - a; b >= 0 {
-				if !one(Run{a, 1}, Run{b, 1}) || !one(Run{b, 1}, Run{a, 1}) {
+				if !one(Run{Size: a, Count: 1}, Run{Size: b, Count: 1}) || !one(Run{Size: b, Count: 1}, Run{Size: a, Count: 1}) {
 					return
 				}
 			}
 			for _, b := range lead {
 				if c := T - 6 - a - b; c >= 0 {
-					if !one(Run{a, 1}, Run{b, 1}, Run{c, 1}) || !one(Run{c, 1}, Run{a, 1}, Run{b, 1}) {
+					if !one(Run{Size: a, Count: 1}, Run{Size: b, Count: 1}, Run{Size: c, Count: 1}) || !one(Run{Size: c, Count: 1}, Run{Size: a, Count: 1}, Run{Size: b, Count: 1}) {
 						return
 					}
 				}
@@ -1128,13 +1153,13 @@ func TestExhaustiveSCT(t *testing.T) {
 	for _, s := range []int{0, 1, 2, 3, 14, 100} {
 		k0 := 65535 / (s + 2)
 		for k := k0 - 1; k <= k0+2; k++ {
-			if !one(Run{s, k}) {
+			if !one(Run{Size: s, Count: k}) {
 				return
 			}
 			// and the same with one element of another size in front / behind so that the total lands exactly on 65535 / 65536
 			for _, T := range []int{65535, 65536} {
 				if pad := T - k*(s+2) - 2; pad >= 0 && pad < 200 {
-					if !one(Run{pad, 1}, Run{s, k}) || !one(Run{s, k}, Run{pad, 1}) {
+					if !one(Run{Size: pad, Count: 1}, Run{Size: s, Count: k}) || !one(Run{Size: s, Count: k}, Run{Size: pad, Count: 1}) {
 						return
 					}
 				}
@@ -1163,7 +1188,7 @@ func TestPropSCT(t *testing.T) {
 		case 0: // free list
 			n := rapid.IntRange(0, 6).Draw(t, "n")
 			for i := 0; i < n; i++ {
-				c.Runs = append(c.Runs, Run{drawSize("size"), 1})
+				c.Runs = append(c.Runs, Run{Size: drawSize("size"), Count: 1})
 			}
 		case 1, 2: // aimed at a total near the limit
 			T := 65535 + rapid.IntRange(-6, 6).Draw(t, "delta")
@@ -1178,11 +1203,11 @@ func TestPropSCT(t *testing.T) {
 				if rapid.Bool().Draw(t, "small-part") {
 					s = rapid.IntRange(0, min(max, 300)).Draw(t, "part-small")
 				}
-				c.Runs = append(c.Runs, Run{s, 1})
+				c.Runs = append(c.Runs, Run{Size: s, Count: 1})
 				left -= s + 2
 			}
 			if left-2 >= 0 {
-				c.Runs = append(c.Runs, Run{left - 2, 1})
+				c.Runs = append(c.Runs, Run{Size: left - 2, Count: 1})
 			}
 			if rapid.Bool().Draw(t, "shuffle") {
 				c.Runs = rapid.Permutation(c.Runs).Draw(t, "perm")
@@ -1190,9 +1215,15 @@ func TestPropSCT(t *testing.T) {
 		case 3: // many small elements
 			s := rapid.IntRange(0, 30).Draw(t, "s")
 			k := 65535/(s+2) + rapid.IntRange(-3, 3).Draw(t, "dk")
-			c.Runs = append(c.Runs, Run{s, k})
+			c.Runs = append(c.Runs, Run{Size: s, Count: k})
 			if rapid.Bool().Draw(t, "tail") {
-				c.Runs = append(c.Runs, Run{rapid.IntRange(0, 40).Draw(t, "tail-size"), 1})
+				c.Runs = append(c.Runs, Run{Size: rapid.IntRange(0, 40).Draw(t, "tail-size"), Count: 1})
+			}
+		}
+		if len(c.Runs) > 0 && rapid.IntRange(0, 2).Draw(t, "selfsimilar") == 0 {
+			i := rapid.IntRange(0, len(c.Runs)-1).Draw(t, "selfsimilarat")
+			if c.Runs[i].Size >= 5 && c.Runs[i].Size <= 65535 {
+				c.Runs[i].SelfSimilar = true
 			}
 		}
 		return c
